@@ -304,7 +304,7 @@ pub fn c04(pid: i32, _o: &DumpOpts, bytes: &[u8]) -> Vec<(String, String)> {
 }
 
 /// The thread's user registers right now (attach, read, detach).
-fn regs_now(tid: i32) -> Option<libc::user_regs_struct> {
+pub fn regs_now(tid: i32) -> Option<libc::user_regs_struct> {
     unsafe {
         if libc::ptrace(libc::PTRACE_ATTACH, tid, 0, 0) != 0 {
             return None;
@@ -351,7 +351,11 @@ pub fn c05(pid: i32, o: &DumpOpts, bytes: &[u8]) -> Vec<(String, String)> {
     }
     let listed_expected = kernel_tids(pid).map(|k| k.contains(&(blamed as u32))).unwrap_or(false);
     let ctx = o.crash.as_ref().map(|c| (c.signo, c.code, c.addr, c.devs.clone()));
-    crate::checks::c05e::judge(bytes, blamed, listed_expected, ctx)
+    let mut f = crate::checks::c05e::judge(bytes, blamed, listed_expected, ctx);
+    if o.crash.is_none() && listed_expected && blamed != pid {
+        f.extend(crate::checks::c05e::judge_truth(bytes, blamed));
+    }
+    f
 }
 
 /// C06 (the part that can be stated from the image and the memory map): for every listed thread whose
